@@ -35,7 +35,7 @@ CHECKS = {
          "WorldStore!StoreEq (len, tables by bytes with identifier and component columns in order, slots, free list in order) is reflexive, symmetric and implies equal reference maps on every pair of reachable stores of the 2-world model; on real worlds the logged == is compared with StoreEq evaluated on the observed stores (drift). == is logged for every ordered pair of live worlds after every event; TLC checks reflexivity, symmetry, eq => same identifiers/values/resources, and eq right after clone and round trip; twins that are then mutated exercise the contrapositive, as do permuted near-miss pairs (after a copy, the rows of one table are re-bound to the identifiers in another order while every column stays equal position by position).",
          "<=3 live worlds.", "6 C16"),
  "C03": ("exploration", "specification-derived query family executed on real Worlds, every result validated by TLC against the query semantics of spec/Access.tla evaluated on the reference map",
-         "208 generated queries (view kinds alone and pairwise, orders, identifier view, nested filters, views as filters, World::entry, every Entries super/sub-view pairing, iteration combined with entry views) are run at random points of random histories; TLC checks the result set or multiset, per-item values and identities, None exactly when absent, writes visible on exactly the matched entities, and lo <= remaining <= hi for every size_hint.",
+         "260 generated queries (view kinds alone and pairwise, orders, identifier view, nested filters, views as filters, World::entry, every Entries super/sub-view pairing, iteration combined with entry views) are run at random points of random histories; TLC checks the result set or multiset, per-item values and identities, None exactly when absent, writes visible on exactly the matched entities, and lo <= remaining <= hi for every size_hint.",
          "The family is finite and fixed; zero-sized and 1-byte components are compared by value.", "6 C03"),
  "C09": ("model_checking", "TLC model checking of the producer split algebra (spec/ParSplit.tla) + par_query results on rayon pools of 1-16 threads validated by TLC against the sequential query semantics",
          "ParSplit: for every split tree of the zipped producers (mutable slice, RepeatNone, shared slice) every row is yielded exactly once. The parallel-capable part of the query family is run with par_query on worlds with many, empty, short and long tables under pools of 1,2,3,4,8,16 threads; TLC requires the multiset of results to equal the reference answer, every entity once, writes equal to the sequential semantics, and pairwise distinct addresses among mutably yielded values. rayon's stealing is sampled, not enumerated (DESIGN section 10).",
